@@ -179,6 +179,8 @@ PROPS["C09"] = dict(
           "checked after every operation. Non-trivial = a bulk operation touches >= 2 entries. Distinct = distinct case."),
     assumptions=["node clock strictly increasing (one writer at a time)", "visible state = All()/Get('#') through the public read API"],
     runs=[
+        # the broadcasts of 70 000 / 300 000 changes of each kind carry the changes: replicas fed with them list what the reference table lists (package c08)
+        dict(name="volume", pkg="c08", run="TestVolume", timeout=dict(quick=400, thorough=2400)),
         dict(name="regress", pkg="c09", run="TestRegress"),
         # every distinct broadcast is merged: pairs of different broadcasts that agree under a family of 32-bit fingerprints (birthday search
         # over 200 000 / 1 500 000 real broadcasts), delivered adjacent, reversed, with duplicates, and a few hundred messages apart
@@ -204,6 +206,8 @@ PROPS["C10"] = dict(
           "at least one removal made on A did not reach B before the exchange. Distinct = distinct case."),
     assumptions=["one global strictly increasing clock (clock skew is C08's subject)", "the model tracks each node during the history and is itself compared with the node before the exchange"],
     runs=[
+        # one snapshot of 70 000 / 300 000 entries of each kind, merged by a fresh node and by a node that had received every other gossip message
+        dict(name="big", pkg="c10", run="TestBigSnapshot", timeout=dict(quick=400, thorough=2400)),
         # every snapshot size 1..1100 (thorough 4200) sessions / twice as many subscriptions / half as many retained messages, with removals:
         # merged by a fresh node and by a node that lives on snapshots alone
         dict(name="sizes", pkg="c10", run="TestSizes", shards=dict(quick=8, thorough=16), timeout=dict(quick=300, thorough=2400)),
@@ -671,7 +675,7 @@ ADDITIONS = {
     "C07": "Run lifetime: a node that has held 70 000 / 300 000 topic names (most cleared again) must still retain, replay and clear a publish on a new name, on the writer and on a mirror; checkpoints around powers of 2 and 10. Run puback: at the very moment a publisher has received the acknowledgement of a retained publish (or clear) another client subscribes: it is sent the new value (nothing older after a clear).",
     "C08": "Run volume: 70 000 / 300 000 changes of each kind made on three origins, delivered in order, reversed and shuffled (batches, duplicates) to three replicas that must all list what the reference table lists.",
     "C09": "Run fingerprints: among 200 000 / 1 500 000 real broadcasts, pairs of different messages that agree under one of 12 32-bit fingerprints (CRC-32 x3, FNV, Adler, truncated MD5/SHA-1/SHA-256, ...) are found by birthday search and delivered to a fresh receiver adjacent, reversed, with duplicates and 300 messages apart; the receiver must list what the reference table of the decoded messages lists.",
-    "C10": "Run sizes: every snapshot size from 1 to 1100 (thorough 4200) sessions, twice as many subscriptions, half as many retained messages (with removals), merged by a fresh node and by a node that lives on snapshots alone.",
+    "C10": "Run sizes: every snapshot size from 1 to 1100 (thorough 4200) sessions, twice as many subscriptions, half as many retained messages (with removals), merged by a fresh node and by a node that lives on snapshots alone. Run big: one snapshot of 70 000 / 300 000 entries of each kind.",
     "C12": "Run simultaneous: 2-24 connections presenting one identifier at the same moment on a node knowing 0 / 2000 / 20000 sessions: all are established; after each has pinged exactly one is served, the one the identifier resolves to. Run connack: at the very moment the new connection has received its CONNACK the earlier session sends a PINGREQ: it is not answered and that connection is closed; the identifier resolves to the new session, whose own PINGREQ is answered (chains of 1-4 takeovers).",
     "C15": "Run longlogs: logs growing past 10 000 (thorough 100 000) entries with the consumer killed before, at and after the boundary while a backlog is ahead of it, then restarted.",
     "C16": "File entries whose password column is empty or a truncated digest (disabled accounts): they match no password.",
